@@ -216,6 +216,33 @@ func (p *Proxy) LiveConns() int {
 	return n
 }
 
+// StalledInject acts on connections that are in STALL mode (nothing is read from either side any more):
+// "closeframe" writes a WebSocket close frame to the server side, "fin" half-closes the server side.
+// The proxy keeps not reading, like a peer that stopped consuming but still says goodbye.
+func (p *Proxy) StalledInject(what string) int {
+	p.mu.Lock()
+	var cs []*pconn
+	for _, c := range p.conns {
+		if atomic.LoadInt32(&c.black) == 2 && atomic.LoadInt32(&c.dead) == 0 {
+			cs = append(cs, c)
+		}
+	}
+	p.mu.Unlock()
+	for _, c := range cs {
+		switch what {
+		case "closeframe":
+			c.s.SetWriteDeadline(time.Now().Add(time.Second))
+			// masked client->server close frame, status 1000 (mask 1,2,3,4)
+			c.s.Write([]byte{0x88, 0x82, 1, 2, 3, 4, 0x03 ^ 1, 0xe8 ^ 2})
+		case "fin":
+			if t, ok := c.s.(*net.TCPConn); ok {
+				t.CloseWrite()
+			}
+		}
+	}
+	return len(cs)
+}
+
 // KillAll applies kind to every live connection.
 func (p *Proxy) KillAll(kind string) {
 	p.mu.Lock()
@@ -292,7 +319,11 @@ func (p *Proxy) kill(pc *pconn, kind string) {
 		atomic.CompareAndSwapInt32(&pc.black, 0, 1)
 		return
 	case STALL:
-		atomic.CompareAndSwapInt32(&pc.black, 0, 2)
+		if atomic.CompareAndSwapInt32(&pc.black, 0, 2) {
+			// interrupt reads that are already pending: from now on nothing is consumed from either side
+			pc.c.SetReadDeadline(time.Unix(1, 0))
+			pc.s.SetReadDeadline(time.Unix(1, 0))
+		}
 		return
 	}
 	if !atomic.CompareAndSwapInt32(&pc.dead, 0, 1) {
@@ -511,7 +542,16 @@ func summarise(payload []byte) *MsgInfo {
 }
 
 func (p *Proxy) frameRelay(pc *pconn, d Dir, src *bufio.Reader, dst net.Conn) {
+	defer func() {
+		// a relay that was kicked out of a read because the connection went into STALL mode parks here
+		if atomic.LoadInt32(&pc.black) == 2 && atomic.LoadInt32(&pc.dead) == 0 {
+			<-pc.stallCh
+		}
+	}()
 	for {
+		if atomic.LoadInt32(&pc.black) == 2 {
+			return
+		}
 		var hdr [14]byte
 		if _, err := io.ReadFull(src, hdr[:2]); err != nil {
 			return
